@@ -5,10 +5,12 @@ import (
 	"flag"
 	"fmt"
 	"os"
+	"os/exec"
 	"path/filepath"
 	"sort"
 	"strconv"
 	"strings"
+	"sync"
 	"time"
 )
 
@@ -210,7 +212,7 @@ func cmdCheck(args []string) int {
 			}
 		}
 	}
-	replayDir := filepath.Join(verifDir, "replays", *prop)
+	replayDir := filepath.Join(envOr("GOVC_REPLAY_DIR", filepath.Join(verifDir, "replays")), *prop)
 	os.MkdirAll(replayDir, 0o755)
 	violations := 0
 	var undecided, knownPrinted []string
@@ -319,6 +321,10 @@ func cmdCheck(args []string) int {
 	extra := map[string]any{}
 	if *tier == "thorough" {
 		v := thoroughExtras(*repo, *prop, seed, extra)
+		crossCheck(rr, smtDir, seed, extra)
+		if os.Getenv("GOVC_NO_SENSITIVITY") == "" && violations == 0 {
+			sensitivity(*repo, *prop, extra)
+		}
 		violations += v
 	}
 	knownPrinted = append(knownPrinted, knownRuntimeLines...)
@@ -366,7 +372,7 @@ func writeReplay(dir, prop string, g *oblGroup, rr *runResult, smtDir string) st
 func reportLoadFailure(prop, tier string, seed int, err error) int {
 	var base Baseline
 	_ = loadJSON(filepath.Join(verifDir, "baseline", "obligations.json"), &base)
-	replayDir := filepath.Join(verifDir, "replays", prop)
+	replayDir := filepath.Join(envOr("GOVC_REPLAY_DIR", filepath.Join(verifDir, "replays")), prop)
 	os.MkdirAll(replayDir, 0o755)
 	path := filepath.Join(replayDir, "load-failure.json")
 	b, _ := json.MarshalIndent(map[string]any{"property": prop, "obligation": "repo-loads", "detail": err.Error()}, "", " ")
@@ -572,6 +578,126 @@ func cmdAxioms(args []string) {
 // thoroughExtras: additional work of the thorough tier (bounded stand-ins, runtime contract checking); filled in replay.go.
 func thoroughExtras(repo, prop string, seed int, extra map[string]any) int {
 	return runBounded(repo, prop, seed, extra)
+}
+
+// crossCheck (thorough tier): every obligation discharged by one back end is put to a DIFFERENT back end as well; a `sat`
+// answer there would be a disagreement between solvers (reported in evidence and on stdout, never hidden).
+func crossCheck(rr *runResult, smtDir string, seed int, extra map[string]any) {
+	type job struct{ o *Obligation }
+	var todo []*Obligation
+	for _, o := range rr.obls {
+		if !o.Cover && o.Status == "unsat" && (strings.HasPrefix(o.Solver, "z3") || o.Solver == "cvc5") {
+			todo = append(todo, o)
+		}
+	}
+	var mu sync.Mutex
+	agree, undecided, disagree := 0, 0, []string{}
+	ch := make(chan *Obligation)
+	var wg sync.WaitGroup
+	for i := 0; i < 12; i++ {
+		wg.Add(1)
+		go func() {
+			defer wg.Done()
+			for o := range ch {
+				other := solvers[2] // cvc5
+				if o.Solver == "cvc5" {
+					other = solvers[0]
+				}
+				script := rr.world.Render(o.consts, o.Assume, o.Goal, nil)
+				id := "x_" + sanitize(o.Name) + fmt.Sprintf("_p%d", o.PathIdx)
+				if len(id) > 150 {
+					id = id[:150]
+				}
+				r := runSolver(other, script, smtDir, id, 5, seed+7)
+				if r.status != "unsat" && other.name == "cvc5" {
+					// cvc5 often answers unknown on the triggered encoding: try the old z3 as the independent second opinion
+					r = runSolver(solvers[1], script, smtDir, id, 5, seed+7)
+				}
+				mu.Lock()
+				switch r.status {
+				case "unsat":
+					agree++
+				case "sat":
+					disagree = append(disagree, o.Name+" ("+o.Solver+" unsat, "+r.solver+" sat)")
+				default:
+					undecided++
+				}
+				mu.Unlock()
+			}
+		}()
+	}
+	for _, o := range todo {
+		ch <- o
+	}
+	close(ch)
+	wg.Wait()
+	sort.Strings(disagree)
+	extra["cross_check"] = map[string]any{"obligations": len(todo), "confirmed_unsat_by_second_backend": agree, "second_backend_undecided_in_5s": undecided, "disagreements": disagree,
+		"note": "each discharged path obligation re-solved by a different solver (cvc5, else z3 4.8.12; z3-new for those cvc5 discharged); only a `sat` answer is a disagreement"}
+	for _, d := range disagree {
+		fmt.Println("SOLVER-DISAGREEMENT " + d)
+	}
+}
+
+// sensitivity (thorough tier): the seeded property-breaking changes of this property (/verif/seeded/<id>-k) are applied
+// to a SCRATCH COPY of the current tree and the quick check is run there; evidence records how many are still reported.
+// Informational only: it never changes the verdict on /repo and nothing in /repo is touched.
+func sensitivity(repo, prop string, extra map[string]any) {
+	dirs, _ := filepath.Glob(filepath.Join(verifDir, "seeded", prop+"-*"))
+	sort.Strings(dirs)
+	var rows []any
+	for _, d := range dirs {
+		var meta struct {
+			Expect string `json:"expect"`
+			Change string `json:"change"`
+		}
+		_ = loadJSON(filepath.Join(d, "meta.json"), &meta)
+		tmp, err := os.MkdirTemp("", "govc-sens-")
+		if err != nil {
+			continue
+		}
+		row := map[string]any{"seeded": filepath.Base(d), "change": meta.Change}
+		func() {
+			defer os.RemoveAll(tmp)
+			cp := exec.Command("rsync", "-a", "--exclude", ".git", repo+"/", tmp+"/repo/")
+			if out, err := cp.CombinedOutput(); err != nil {
+				row["result"] = "copy failed: " + truncate(string(out), 200)
+				return
+			}
+			ap := exec.Command("git", "apply", "--unsafe-paths", "--directory="+filepath.Join(tmp, "repo"), filepath.Join(d, "patch.diff"))
+			ap.Dir = "/"
+			if out, err := ap.CombinedOutput(); err != nil {
+				ap2 := exec.Command("patch", "-p1", "-s", "-i", filepath.Join(d, "patch.diff"))
+				ap2.Dir = filepath.Join(tmp, "repo")
+				if out2, err2 := ap2.CombinedOutput(); err2 != nil {
+					row["result"] = "patch no longer applies to the current tree: " + truncate(string(out)+string(out2), 200)
+					return
+				}
+			}
+			self, _ := os.Executable()
+			c := exec.Command(self, "check", "-property", prop, "-tier", "quick")
+			c.Env = append(os.Environ(), "GOVC_REPO="+filepath.Join(tmp, "repo"), "GOVC_EVIDENCE_DIR="+filepath.Join(tmp, "ev"), "GOVC_REPLAY_DIR="+filepath.Join(tmp, "replays"), "VERIF_TIER=quick")
+			out, _ := c.CombinedOutput()
+			reported := strings.Contains(string(out), "VIOLATION property="+prop)
+			var names []string
+			for _, l := range strings.Split(string(out), "\n") {
+				if strings.HasPrefix(l, "  failed obligation ") {
+					f := strings.Fields(l)
+					if len(f) >= 3 {
+						names = append(names, f[2])
+					}
+				}
+			}
+			row["reported"] = reported
+			row["failed_obligations"] = names
+			if meta.Expect == "missed" {
+				row["recorded_gap"] = true
+			}
+		}()
+		rows = append(rows, row)
+	}
+	extra["sensitivity_seeded_changes"] = rows
+	extra["sensitivity_note"] = "must-fail corpus: each seeded change is applied to a scratch copy of the current working tree (outside /repo, removed afterwards) and the quick check is run on the copy; informational, never part of the verdict"
 }
 
 // cmdStress: developer command — solve every obligation under several seeds and report the unstable ones.
